@@ -26,7 +26,12 @@ Init == /\ n = 0 /\ opt \in Opts
         /\ \/ \E tv \in Typed : root = [k |-> "arr", ops |-> <<ElemOp(tv), ElemOp(<<"i32", XU(7)>>)>>]
            \/ \E tv \in Typed : root = [k |-> "obj", ops |-> <<ReqOp(<<97>>, tv)>>]
            \/ root = [k |-> "obj", ops |-> <<>>] \/ root = [k |-> "arr", ops |-> <<>>]
-Members == { [op |-> "base", ops |-> <<ReqOp(<<66>>, <<"u8", XU(1)>>), ReqOp(<<67>>, <<"str", XS(<<226, 130, 172>>)>>)>>],
+AttrOp(key, tv) == [op |-> "attr", ks |-> key, t |-> tv[1], v |-> tv[2]]
+Members == { AttrOp(<<120, 49>>, <<"i32", XU(300)>>), AttrOp(<<120, 50>>, <<"str", XS(<<97, 9, 98, 10, 34, 99, 39, 60, 38, 62, 13>>)>>),
+             AttrOp(<<120, 51>>, <<"f64", <<"f64", X8(63,248,0,0,0,0,0,0)>>>>), AttrOp(<<120, 52>>, <<"bool", <<"bool", TRUE>>>>),
+             AttrOp(<<120, 53>>, <<"u64", <<"int", FALSE, X8(255,255,255,255,255,255,255,255)>>>>),
+             [op |-> "obj", ks |-> <<112>>, ops |-> <<AttrOp(<<121>>, <<"i8", XU(-128)>>), ReqOp(<<122>>, <<"str", XS(<<208, 159>>)>>)>>],
+             [op |-> "base", ops |-> <<ReqOp(<<66>>, <<"u8", XU(1)>>), ReqOp(<<67>>, <<"str", XS(<<226, 130, 172>>)>>)>>],
              ReqOp(<<107>>, <<"u32", <<"int", FALSE, X8(0,0,0,0,238,107,40,0)>>>>),
              [op |-> "obj", ks |-> <<111>>, ops |-> <<ReqOp(<<120>>, <<"i64", <<"int", TRUE, X8(128,0,0,0,0,0,0,0)>>>>), ReqOp(<<121>>, <<"null", <<"nil">>>>)>>],
              [op |-> "arr", ks |-> <<114>>, ops |-> <<ElemOp(<<"str", XS(<<10, 9, 34>>)>>), ElemOp(<<"u64", <<"int", FALSE, X8(255,255,255,255,255,255,255,255)>>>>),
